@@ -23,7 +23,7 @@ META = {
                    "linear-interpolation quantile of the per-resample oracle values; entries are non-decreasing in q; count is n at every quantile; a constant "
                    "metric has all quantiles equal to the point estimate; shapes / columns / index match the point estimate for groups present in a resample.",
     "tier_bounds": {"quick": "n=2: all 4 index vectors, n_boot 1,2 all tuples, n_boot 3 seeded 12; n=3: seeded 4 vectors (n_boot=1), 3 pairs (n_boot=2) per group layout; "
-                             "a control-feature layout with 3 seeded draws; quantile lists [0.25,0.75], [0.5], [0.1,0.5,0.9]; real RNG: 3 seeds",
+                             "a control-feature layout with 3 seeded draws; quantile lists [0.25,0.75], [0.5], [0.1,0.5,0.9]; real RNG: seeds 0, 1, 2^31 + 3 random",
                     "thorough": "n=3 n_boot=2 all 729 pairs, n=4 seeded; 30 seeds"},
     "trusted_base": ["z3", "symx", "numpy quantile on object arrays as executed", "DataFrame.sample contract stub"],
     "stubs": ["pandas.DataFrame.sample -> rows at a harness-chosen index vector (mode ii only)", "nanops._ensure_numeric"],
@@ -263,8 +263,9 @@ def _seeds(acc, job, deadline):
     """real generators: determinism for a fixed integer seed; resamples differ (positive width is satisfiable)"""
     rnd = random.Random(job["seed"])
     n, groups = 4, [0, 1, 0, 1]
-    for k in range(job["nseeds"]):
-        sd = rnd.randint(0, 2 ** 31 - 1)
+    boundary = [0, 1, 2 ** 31]  # boundary seeds first (0 is falsy), then seeded random ones
+    for k in range(job["nseeds"] + len(boundary)):
+        sd = boundary[k] if k < len(boundary) else rnd.randint(0, 2 ** 31 - 1)
         pf = [0.1, 0.7, 0.4, 0.9]
         a = _frame(n, groups, None, pf, 0.5, [0.05, 0.95], 6, rs=sd)
         b = _frame(n, groups, None, pf, 0.5, [0.05, 0.95], 6, rs=sd)
@@ -306,7 +307,7 @@ def _seeds(acc, job, deadline):
     acc.r["canaries_fired"] += 1
     # undischarged "positive width" obligations on individual paths are not failures (a path may force ties); recount
     pw = acc.r["ob_names"].get("positive_width_satisfiable", 0)
-    got = acc.r["discharged"] - 2 * job["nseeds"] + acc.r["sat"]
+    got = acc.r["discharged"] - 2 * (job["nseeds"] + 3) + acc.r["sat"]
     if got <= 0 and pw > 0:
         acc.r["cex"].append({"obligation": "positive_width_satisfiable", "signature": "seeds:width", "job": job, "model": {}, "extra": {}})
         acc.r["sat"] += 1
